@@ -574,6 +574,17 @@ class FunctionFlow:
         if isinstance(s, (ast.Expr,)):
             st = self._add_calls(st, [s.value], line)
             st = self._call_effects(st, s.value)
+            # explicit <lock>.acquire() / <lock>.release() statements open / close a held-lock region
+            v = s.value
+            if isinstance(v, ast.Call) and isinstance(v.func, ast.Attribute) and v.func.attr in ("acquire", "release") and not v.args and not v.keywords:
+                lk = self._lock_key_through_locals(v.func.value, st)
+                if lk is not None:
+                    if v.func.attr == "acquire":
+                        st = State(st.facts, st.locks + (lk,), st.defs)
+                    elif lk in st.locks:
+                        locks = list(st.locks)
+                        locks.reverse(); locks.remove(lk); locks.reverse()
+                        st = State(st.facts, tuple(locks), st.defs)
             self.after[id(s)] = st
             return st
         if isinstance(s, ast.Assign):
@@ -650,7 +661,7 @@ class FunctionFlow:
             pushed = []
             for it in s.items:
                 st1 = self._add_calls(st1, [it.context_expr], line)
-                lk = self.lock_key(it.context_expr)
+                lk = self._lock_key_through_locals(it.context_expr, st1)
                 if lk is not None:
                     pushed.append(lk)
                 if it.optional_vars is not None:
@@ -760,6 +771,16 @@ class FunctionFlow:
                             return f"{c.name}.{last}"
                 return f"{self.prog.classes[sorted(bt)[0]].name}.{last}"
         return d
+
+    def _lock_key_through_locals(self, expr: ast.AST, st: State) -> Optional[str]:
+        """lock_key, with a local alias (`lk = self._lock; with lk:`) resolved to the attribute it was bound from."""
+        if isinstance(expr, ast.Name) and expr.id in st.defs:
+            x = self.expand(expr, st)
+            if not isinstance(x, ast.Name):
+                k = self.lock_key(x)
+                if k is not None:
+                    return k
+        return self.lock_key(expr)
 
     # ------------------------------------------------------------ queries
     def state_at(self, node: ast.AST) -> State:
